@@ -78,6 +78,18 @@ func cmdCheck(args []string) int {
 		fmt.Printf("VIOLATION property=%s replay=%s no-failing-input-found\n", *prop, replay)
 		return 1
 	}
+	if b, err := os.ReadFile(filepath.Join(*verif, "baseline", "locals.json")); err == nil {
+		json.Unmarshal(b, &eng.baseLocals)
+	}
+	if b, err := os.ReadFile(filepath.Join(*verif, "baseline", "functions.json")); err == nil {
+		var names []string
+		if json.Unmarshal(b, &names) == nil {
+			eng.baseFuncs = map[string]bool{}
+			for _, n := range names {
+				eng.baseFuncs[n] = true
+			}
+		}
+	}
 	timeout := 10
 	if *tier == "thorough" {
 		timeout = 60
@@ -280,6 +292,19 @@ func cmdCheck(args []string) int {
 		ledger["dead:"+*prop] = dead
 		ledger[*prop] = names
 		saveLedger(filepath.Join(*verif, "baseline", "ledger.json"), ledger)
+		// variable names of every function under contract, as of now
+		locals := map[string]map[string]string{}
+		for k := range eng.cs.Funcs {
+			if fn := eng.funcs[k]; fn != nil {
+				locals[fn.String()] = eng.localsOf(fn)
+			}
+		}
+		if b, err := json.MarshalIndent(locals, "", " "); err == nil {
+			os.WriteFile(filepath.Join(*verif, "baseline", "locals.json"), b, 0o644)
+		}
+		if b, err := json.MarshalIndent(eng.repoFuncs(), "", " "); err == nil {
+			os.WriteFile(filepath.Join(*verif, "baseline", "functions.json"), b, 0o644)
+		}
 	}
 
 	// ---- evidence ----
